@@ -234,7 +234,8 @@ def _search_dirs(dirs: List[Path], search_glob: str) -> List[Path]:
     """
     matched_files: List[Path] = []
     for directory in dirs:
-        for path_str in glob.iglob(str(Path(directory) / search_glob), recursive=True):
+        # NOTE: Escape the directory, so that e.g. `[` or `*` in the project path are not treated as glob patterns
+        for path_str in glob.iglob(str(Path(glob.escape(str(directory))) / search_glob), recursive=True):
             path = Path(path_str)
             # The glob also matches directories (e.g. a directory named `foo.py`, or every
             # directory when no suffix is given). Only files are component files.
